@@ -96,6 +96,10 @@ class Ref:
     def predict(self, fh):
         raise NotImplementedError
 
+    def pinned(self):
+        """False when a forecast from the present state is not defined at all (the window reaches before the data)"""
+        return True
+
 
 class RefNaive(Ref):
     def __init__(self, strategy="last", w=None, sp=1):
@@ -107,6 +111,9 @@ class RefNaive(Ref):
             self.wl = 1 if self.sp == 1 else self.sp
         else:
             self.wl = self.w if self.w is not None else len(self.mem)
+
+    def pinned(self):
+        return all(t in self.mem for t in range(self.cut - self.wl + 1, self.cut + 1))
 
     def predict(self, fh):
         ts = range(self.cut - self.wl + 1, self.cut + 1)
@@ -237,6 +244,9 @@ class RefReduce(Ref):
         ts, vs = self.sorted_mem()
         self.c = float(np.mean(vs[self.w:]))
 
+    def pinned(self):
+        return all(t in self.mem for t in range(self.cut - self.w + 1, self.cut + 1))
+
     def predict(self, fh):
         ts = range(self.cut - self.w + 1, self.cut + 1)
         if any(t not in self.mem for t in ts):
@@ -267,6 +277,9 @@ class RefEnsemble(Ref):
 
     def refit(self):
         pass
+
+    def pinned(self):
+        return all(c.pinned() for c in self.children)
 
     def predict(self, fh):
         ps = [c.predict(fh) for c in self.children]
@@ -350,6 +363,9 @@ class RefPipe(Ref):
         if up:
             self.fresh = True
 
+    def pinned(self):
+        return self.child.pinned()
+
     def predict(self, fh):
         if not self.contiguous() or self.child.cut != self.cut:
             return None
@@ -399,15 +415,18 @@ def _stubs():
 
 class Spec:
     def __init__(self, name, make, ref, impl=None, kf=None, composite=False, min_fit=2, slow=False, empty_ok=True, required_fh=False,
-                 default_w=10):
+                 default_w=10, cost=10, contiguous_fh=False):
         self.name, self.make, self.ref, self.impl, self.kf = name, make, ref, impl, kf
         self.composite, self.min_fit, self.slow, self.empty_ok, self.required_fh = composite, min_fit, slow, empty_ok, required_fh
         self.default_w = default_w          # window length of the default cv of update_predict (None: window_length_)
+        self.cost = cost                    # measured milliseconds per call sequence (only used to size the samples)
+        self.contiguous_fh = contiguous_fh  # only horizons without gaps (Deseasonalizer.inverse_transform assumes them: not C10)
 
 
 KF_THETA = "KF:theta-update-params-keeps-stale-ses-fit"
 KF_PIPE = "KF:pipeline-update-params-keeps-stale-transformed-history"
 KF_DESEASON = "KF:pipeline-deseasonalizer-never-reestimated-on-update"
+KF_INNER = "KF:composite-forecasts-from-component-cutoff-after-update-predict"
 
 
 def all_specs():
@@ -429,45 +448,46 @@ def all_specs():
         Spec("Naive(last,sp=3)", lambda: N("last", sp=3), lambda: RefNaive("last", None, 3), min_fit=3, default_w=None),
         Spec("Naive(mean,sp=2,window=None)", lambda: N("mean", sp=2), lambda: RefNaive("mean", None, 2), default_w=None),
         Spec("Naive(mean,sp=2,window=5)", lambda: N("mean", sp=2, window_length=5), lambda: RefNaive("mean", 5, 2), min_fit=5, default_w=None),
-        Spec("PolynomialTrend(1)", lambda: P(degree=1), lambda: RefPoly(1)),
-        Spec("PolynomialTrend(2)", lambda: P(degree=2), lambda: RefPoly(2), min_fit=3),
-        Spec("PolynomialTrend(1,no intercept)", lambda: P(degree=1, with_intercept=False), lambda: RefPoly(1, False)),
-        Spec("ExponentialSmoothing()", lambda: ExponentialSmoothing(), lambda: RefES(None), slow=True, min_fit=6),
-        Spec("ExponentialSmoothing(trend=add)", lambda: ExponentialSmoothing(trend="add"), lambda: RefES("add"), slow=True, min_fit=6),
-        Spec("Theta()", lambda: ThetaForecaster(), lambda: RefTheta(False), impl=lambda: RefTheta(True), kf=KF_THETA, slow=True, min_fit=6),
+        Spec("PolynomialTrend(1)", lambda: P(degree=1), lambda: RefPoly(1), cost=17),
+        Spec("PolynomialTrend(2)", lambda: P(degree=2), lambda: RefPoly(2), min_fit=3, cost=18),
+        Spec("PolynomialTrend(1,no intercept)", lambda: P(degree=1, with_intercept=False), lambda: RefPoly(1, False), cost=18),
+        Spec("ExponentialSmoothing()", lambda: ExponentialSmoothing(), lambda: RefES(None), slow=True, min_fit=6, cost=45),
+        Spec("ExponentialSmoothing(trend=add)", lambda: ExponentialSmoothing(trend="add"), lambda: RefES("add"), slow=True, min_fit=6, cost=300),
+        Spec("Theta()", lambda: ThetaForecaster(), lambda: RefTheta(False), impl=lambda: RefTheta(True), kf=KF_THETA, slow=True, min_fit=6, cost=55),
         Spec("Ensemble[Naive(mean),Poly(1)]", lambda: EnsembleForecaster([("a", N("mean")), ("b", P(degree=1))]),
-             lambda: RefEnsemble([RefNaive("mean"), RefPoly(1)], "mean"), composite=True),
+             lambda: RefEnsemble([RefNaive("mean"), RefPoly(1)], "mean"), composite=True, cost=40),
         Spec("Ensemble[Naive(drift),Poly(2),Naive(mean,3)]median",
              lambda: EnsembleForecaster([("a", N("drift")), ("b", P(degree=2)), ("c", N("mean", window_length=3))], aggfunc="median"),
-             lambda: RefEnsemble([RefNaive("drift"), RefPoly(2), RefNaive("mean", 3)], "median"), composite=True, min_fit=3),
+             lambda: RefEnsemble([RefNaive("drift"), RefPoly(2), RefNaive("mean", 3)], "median"), composite=True, min_fit=3, cost=46),
         Spec("Ensemble[Naive(last),Naive(mean)]max", lambda: EnsembleForecaster([("a", N("last")), ("b", N("mean"))], aggfunc="max"),
-             lambda: RefEnsemble([RefNaive("last"), RefNaive("mean")], "max"), composite=True),
+             lambda: RefEnsemble([RefNaive("last"), RefNaive("mean")], "max"), composite=True, cost=22),
         Spec("Multiplex->Naive(mean)", lambda: MultiplexForecaster([("a", N("mean")), ("b", P(degree=1))], selected_forecaster="a"),
              lambda: RefEnsemble([RefNaive("mean")], "mean"), composite=True),
         Spec("Multiplex->Poly(1)", lambda: MultiplexForecaster([("a", N("mean")), ("b", P(degree=1))], selected_forecaster="b"),
-             lambda: RefEnsemble([RefPoly(1)], "mean"), composite=True),
+             lambda: RefEnsemble([RefPoly(1)], "mean"), composite=True, cost=18),
         Spec("Stacking[Naive(mean),Poly(1)]+fixed final regressor",
              lambda: StackingForecaster([("a", N("mean")), ("b", P(degree=1))], final_regressor=StackReg()),
-             lambda: RefEnsemble([RefNaive("mean"), RefPoly(1)], weights=[0.6, 0.4], bias=0.25), composite=True, min_fit=8, required_fh=True),
+             lambda: RefEnsemble([RefNaive("mean"), RefPoly(1)], weights=[0.6, 0.4], bias=0.25), composite=True, min_fit=8, required_fh=True, cost=32),
         Spec("Pipeline[Detrender(1),Naive(mean,3)]", lambda: TransformedTargetForecaster([("d", Detrender(P(degree=1))), ("f", N("mean", window_length=3))]),
              lambda: RefPipe([TDetrend(1)], RefNaive("mean", 3)), impl=lambda: RefPipe([TDetrend(1)], RefNaive("mean", 3), True), kf=KF_PIPE,
-             composite=True, min_fit=3, empty_ok=False),
+             composite=True, min_fit=3, empty_ok=False, cost=32),
         Spec("Pipeline[Detrender(None),Naive(mean)]", lambda: TransformedTargetForecaster([("d", Detrender()), ("f", N("mean"))]),
              lambda: RefPipe([TDetrend(1)], RefNaive("mean")), impl=lambda: RefPipe([TDetrend(1)], RefNaive("mean"), True), kf=KF_PIPE,
-             composite=True, empty_ok=False),
+             composite=True, empty_ok=False, cost=32),
         Spec("Pipeline[Detrender(2),Naive(last)]", lambda: TransformedTargetForecaster([("d", Detrender(P(degree=2))), ("f", N("last"))]),
              lambda: RefPipe([TDetrend(2)], RefNaive("last")), impl=lambda: RefPipe([TDetrend(2)], RefNaive("last"), True), kf=KF_PIPE,
-             composite=True, min_fit=3, empty_ok=False),
+             composite=True, min_fit=3, empty_ok=False, cost=32),
         Spec("Pipeline[Detrender(1),Naive(drift)]", lambda: TransformedTargetForecaster([("d", Detrender(P(degree=1))), ("f", N("drift"))]),
              lambda: RefPipe([TDetrend(1)], RefNaive("drift")), impl=lambda: RefPipe([TDetrend(1)], RefNaive("drift"), True), kf=KF_PIPE,
-             composite=True, empty_ok=False),
+             composite=True, empty_ok=False, cost=32),
         Spec("Pipeline[Deseasonalizer(3),Naive(mean)]", lambda: TransformedTargetForecaster([("s", Deseasonalizer(sp=3)), ("f", N("mean"))]),
              lambda: RefPipe([TDeseason(3)], RefNaive("mean")), impl=lambda: RefPipe([TDeseason(3)], RefNaive("mean"), True), kf=KF_DESEASON,
-             composite=True, min_fit=6, empty_ok=False),
+             composite=True, min_fit=6, empty_ok=False, cost=18, contiguous_fh=True),
         Spec("Pipeline[Deseasonalizer(2),Detrender(1),Naive(mean,4)]",
              lambda: TransformedTargetForecaster([("s", Deseasonalizer(sp=2)), ("d", Detrender(P(degree=1))), ("f", N("mean", window_length=4))]),
              lambda: RefPipe([TDeseason(2), TDetrend(1)], RefNaive("mean", 4)),
-             impl=lambda: RefPipe([TDeseason(2), TDetrend(1)], RefNaive("mean", 4), True), kf=KF_DESEASON, composite=True, min_fit=6, empty_ok=False),
+             impl=lambda: RefPipe([TDeseason(2), TDetrend(1)], RefNaive("mean", 4), True), kf=KF_DESEASON, composite=True, min_fit=6, empty_ok=False, cost=36,
+             contiguous_fh=True),
         Spec("Reduction(recursive,window=3,stub regressor)",
              lambda: make_reduction(StubReg(), scitype="tabular-regressor", strategy="recursive", window_length=3),
              lambda: RefReduce(3), min_fit=5, default_w=None),
@@ -673,7 +693,7 @@ class Run:
 
     def predict_checks(self, key, what, fresh_too=False):
         """forecast now; twice (a forecast must not change anything); optionally against a fresh instance fitted on the union"""
-        if self.dead:
+        if self.dead or not self.ref.pinned():
             return
         before = snap(self.f)
         arg = self.fh_arg()
@@ -688,7 +708,7 @@ class Run:
                 and self.f.cutoff == self.im.label(self.ref.cut) and same_params(before, snap(self.f)))
         self.R.check("predict-does-not-change-state", same, self.d(f"two consecutive predict calls after {what}: {got.values.tolist()} then "
                      f"{again.values.tolist()}, cutoff {self.f.cutoff}"))
-        if fresh_too and self.ref.contiguous():
+        if fresh_too and self.ref.contiguous() and (self.model_ok or self.impl is None):
             g = self.spec.make()
             u = self.union_series()
             try:
@@ -764,7 +784,8 @@ class Run:
         if not up:
             self.R.check("no-param-update-keeps-fitted-params", same_params(before, snap(self.f)),
                          self.d(f"fitted parameters before {np.round(before, 5).tolist()} after {np.round(snap(self.f), 5).tolist()}"))
-        self.judged(key, got, self.ref.cut, what)
+        if self.ref.pinned():
+            self.judged(key, got, self.ref.cut, what)
         if twin is not None:
             try:
                 with warnings.catch_warnings():
@@ -785,18 +806,50 @@ class Run:
             return
         key = "update-predict-equals-single-steps"
         fh = self.fh
-        what = f"update_predict(t={batch[0][0]}..{batch[-1][0]}, cv={cv}, update_params={up})"
-        self.trace.append(what)
+        self.trace.append("update_predict(...)")
         y = self.im.series(batch)
+        if self.inner_stale:
+            # components of a composite still sit at the cutoff of an earlier update_predict: a first window without data
+            # would be forecast from there (see KF_INNER); start with a window
+            if cv is None:
+                self.trace.pop()
+                return
+            cv = (cv[0], cv[1], cv[2], True)
         if cv is None:
             w = self.spec.default_w if self.spec.default_w is not None else int(round(snap_window(self.f)))
             cvx = ("sliding", w, 1, False)
         else:
             cvx = cv
+        if cvx[1] + max(fh) > len(batch):      # the splitters reject a window that does not fit (C01)
+            self.trace.pop()
+            return
         wins = cv_windows(len(batch), fh, cvx)
         if not wins:
+            self.trace.pop()
             return
+        what = f"update_predict(t={batch[0][0]}..{batch[-1][0]}, cv={cv}, update_params={up})"
+        self.trace[-1] = what
         cut0 = self.ref.cut
+        # ---- the model: move to just before the data, hand over window after window, forecast, come back
+        exp_cols = []
+        defined = True
+        for m in (self.ref, self.impl):
+            if m is None:
+                continue
+            m.cut = batch[0][0] - 1
+            cols = []
+            for a, c in wins:
+                m.update(batch[a: c + 1], up)
+                defined = defined and m.pinned()
+                cols.append((m.cut, m.predict(fh) if (self.model_ok and m.pinned()) else None))
+            m.cut = cut0
+            m.fresh = False
+            exp_cols.append(cols)
+        if not defined:
+            # some window asks for a forecast whose input window reaches before the first observation: nothing is pinned down
+            self.trace.pop()
+            self.dead = True
+            return
         twin = None
         try:
             twin = copy.deepcopy(self.f)
@@ -807,19 +860,6 @@ class Run:
         ok, got = self.call(key, what, lambda: self.f.update_predict(y, cv=real_cv, update_params=up))
         if not ok:
             return
-        # ---- the model: move to just before the data, hand over window after window, forecast, come back
-        exp_cols = []
-        for m in (self.ref, self.impl):
-            if m is None:
-                continue
-            m.cut = batch[0][0] - 1
-            cols = []
-            for a, c in wins:
-                m.update(batch[a: c + 1], up)
-                cols.append((m.cut, m.predict(fh) if self.model_ok else None))
-            m.cut = cut0
-            m.fresh = False
-            exp_cols.append(cols)
         cuts = [batch[0][0] + c for _, c in wins]
         self.inner_stale = self.spec.composite
         # ---- shape and labels
@@ -868,9 +908,23 @@ class Run:
         if not self.check_state(what):
             self.dead = True
             return
-        if not self.spec.composite and not up:
-            # the forecaster is back at its cutoff: forecasts are made from there although later data are remembered
-            self.predict_checks("update-predict-restores-cutoff", what)
+        if not self.spec.composite:
+            if not up:
+                # the forecaster is back at its cutoff: forecasts are made from there although later data are remembered
+                self.predict_checks("update-predict-restores-cutoff", what)
+        elif self.ref.pinned():
+            # a composite: only the time points of the next forecast are pinned down (cutoff + fh)
+            key = "update-predict-restores-cutoff"
+            ok, nxt = self.call(key, f"predict after {what}", lambda: self.f.predict())
+            if ok:
+                inner = max([batch[0][0] + c for a, c in wins if c >= a] + [cut0])
+                if list(nxt.index) == self.labels(cut0):
+                    self.R.check(key, True, "")
+                elif inner != cut0 and list(nxt.index) == self.labels(inner):
+                    self.R.check(KF_INNER, False, self.d(f"cutoff is {self.f.cutoff} again but the next predict() returns forecasts for {list(nxt.index)}, "
+                                 f"i.e. made from {self.im.label(inner)}, the cutoff of the last window (the components were not moved back)"))
+                else:
+                    self.R.check(key, False, self.d(f"cutoff is {self.f.cutoff}; the next predict() returns forecasts for {list(nxt.index)}, expected {self.labels(cut0)}"))
 
     def split_columns(self, got, cuts):
         """update_predict result -> one Series (index = forecast time points) per cutoff; checks the cutoff labels"""
@@ -1027,100 +1081,117 @@ CVS = [("sliding", 1, 1, False), ("sliding", 2, 1, False), ("sliding", 2, 2, Fal
 TAILS = ["none", "update-same", "update-same-refit", "update-more", "again", "again-other-cv", "single"]
 
 
-def enumerate_spec(R, spec, tier, rng):
+def fits_spec(spec, fh):
+    if spec.required_fh and max(fh) >= 4:
+        return False
+    if spec.contiguous_fh and list(fh) != list(range(fh[0], fh[0] + len(fh))):
+        return False
+    return True
+
+
+def enumerate_spec(spec, tier):
+    """the enumerated space of call sequences for one configuration, as four lists of (function, args)"""
     quick = tier == "quick"
-    slow = spec.slow
-    kinds = ["range"] if (quick or slow) else ["range", "int", "period"]
-    offsets = [0, 3] if not slow else [3]
-    fhs = FHS[: (3 if quick else 6)] if not slow else FHS[: (2 if quick else 3)]
-    n1s = [max(spec.min_fit + 1, 8)] if (quick or slow) else [max(spec.min_fit + 1, 7), max(spec.min_fit + 2, 10)]
+    kinds = ["range"] if quick else ["range", "int", "period"]
+    offsets = [0, 3]
+    fhs = [fh for fh in FHS[: (3 if quick else 6)] if fits_spec(spec, fh)]
+    n1s = [max(spec.min_fit + 1, 8)] if quick else [max(spec.min_fit + 1, 7), max(spec.min_fit + 2, 10)]
     r = 4 if quick else 5
+    S1, S2, S3 = [], [], []
     # ---- S1: every way of cutting the remainder into <= 3 batches, every update_params pattern, overlaps
-    comps = compositions(r, 3 if not slow else 2)
+    comps = compositions(r, 3)
     for kind in kinds:
         im = IndexMap(kind)
         for l0 in offsets:
-            if kind == "period" and l0 == 0:
-                continue
             for fh in fhs:
-                if spec.required_fh and max(fh) >= 4:
-                    continue
                 for n1 in n1s:
                     for parts in comps:
                         for flags in itertools.product((True, False), repeat=len(parts)):
-                            for ov in ((0, 1, 2) if not slow else (0, 2)):
-                                if quick and (len(parts) == 3 and ov == 1):
-                                    continue
-                                if slow and quick and len(parts) == 2 and flags[0] != flags[1] and ov == 2:
-                                    continue
-                                scen_batches(R, spec, im, fh, l0, n1, parts, flags, ov)
+                            for ov in (0, 1, 2):
+                                S1.append((scen_batches, (spec, im, fh, l0, n1, parts, flags, ov)))
     # ---- S2: update_predict with every splitter shape, then what usually follows
-    cvs = CVS if not slow else [CVS[2], CVS[3], CVS[7], None]
     for kind in kinds:
         im = IndexMap(kind)
         l0 = 3 if kind != "int" else 0
         for fh in fhs:
-            if spec.required_fh and max(fh) >= 4:
-                continue
-            n1 = n1s[0]
-            for cv in cvs:
-                if cv is not None and not cv[3] and not spec.empty_ok:
-                    cv = (cv[0], cv[1], cv[2], True)
-                if cv is None and not spec.empty_ok:
-                    continue
-                for up in (True, False):
-                    tails = TAILS if not (quick and slow) else ["update-same", "again"]
-                    for tail in tails:
-                        if quick and tail in ("update-more", "again-other-cv") and cv not in (CVS[3], CVS[5]):
-                            continue
-                        for m in ((max(fh) + 3,) if quick else (max(fh) + 3, max(fh) + 5)):
-                            scen_upp(R, spec, im, fh, l0, n1, m, cv, up, tail)
-                # update_predict over data that start inside what was already seen (no re-estimation: see scen_random)
-                if cv is not None and cv[3]:
-                    for ov in (1, 2):
-                        scen_upp(R, spec, im, fh, l0, n1, max(fh) + 3, cv, False, "update-same", overlap=ov)
+            for n1 in n1s:
+                for cv in CVS:
+                    if cv is not None and not cv[3] and not spec.empty_ok:
+                        cv = (cv[0], cv[1], cv[2], True)
+                    if cv is None and not spec.empty_ok:
+                        continue
+                    w = cv[1] if cv is not None else 0
+                    for extra in ((0,) if quick else (0, 2)):
+                        m = max(fh) + max(3, w) + extra
+                        for up in (True, False):
+                            for tail in TAILS:
+                                S2.append((scen_upp, (spec, im, fh, l0, n1, m, cv, up, tail)))
+                        # update_predict over data that start inside what was already seen (no re-estimation: see scen_random)
+                        if cv is not None and cv[3]:
+                            for ov in (1, 2):
+                                S2.append((scen_upp, (spec, im, fh, l0, n1, m, cv, False, "update-same", ov)))
     # ---- S3: update_predict_single
     for kind in kinds:
         im = IndexMap(kind)
         for fh in fhs:
-            if spec.required_fh and max(fh) >= 4:
-                continue
-            for k in (1, 3):
-                for o in (0, 2):
-                    for up in (True, False):
-                        for then in ("update", "single"):
-                            scen_ups(R, spec, im, fh, 3, n1s[0], k, o, up, then)
-    # ---- S4: random call sequences
-    nseq = (6 if slow else 25) if quick else (40 if slow else 300)
+            for n1 in n1s:
+                for k in (1, 3):
+                    for o in (0, 2):
+                        for up in (True, False):
+                            for then in ("update", "single"):
+                                S3.append((scen_ups, (spec, im, fh, 3, n1, k, o, up, then)))
+    return S1, S2, S3, (kinds, fhs, n1s)
+
+
+def run_spec(R, spec, tier, rng, budget_ms):
+    """run a seeded sample of the enumerated sequences (all of them if the budget allows) plus random sequences"""
+    S1, S2, S3, (kinds, fhs, n1s) = enumerate_spec(spec, tier)
+    n = max(int(budget_ms / spec.cost), 14)
+    shares = ((S1, 0.36), (S2, 0.42), (S3, 0.10))
+    ran = total = 0
+    for lst, share in shares:
+        k = min(len(lst), max(2, int(round(n * share))))
+        pick = lst if k == len(lst) else rng.sample(lst, k)
+        for fn, args in pick:
+            fn(R, *args)
+        ran += len(pick)
+        total += len(lst)
+    nseq = max(2, int(round(n * 0.12)))
     for i in range(nseq):
         im = IndexMap(rng.choice(kinds))
         fh = rng.choice(fhs)
-        if spec.required_fh and max(fh) >= 4:
-            fh = (1, 3)
         scen_random(R, spec, im, fh, rng.choice([0, 2, 5]), n1s[0] + rng.choice([0, 1, 2]), rng, rng.choice([3, 4, 5, 6]))
+    return ran, total, nseq
 
 
 def bounded(tier, seed):
     with warnings.catch_warnings():
         warnings.simplefilter("ignore")
         specs = all_specs()
-    R = Recorder(
-        "27 forecaster configurations (8 NaiveForecaster variants incl. window_length=None and seasonal, 3 PolynomialTrend, 2 ExponentialSmoothing, "
-        "Theta(sp=1), 3 Ensemble aggregations, Multiplex x2, Stacking with a fixed-weight final regressor, 6 TransformedTarget pipelines with "
-        "Detrender/Deseasonalizer, recursive reduction over a stub regressor); fit on 7-12 points then: S1 every cut of the next 4 (thorough 5) "
-        "points into <=3 consecutive batches x every update_params pattern x overlap 0/1/2 points with revised values; S2 update_predict over "
-        "max(fh)+3 (+5) points with 10 sliding/expanding splitter shapes (window<=4, step<=3, both start modes) and the default cv, "
-        "update_params on/off, followed by one of 7 continuations (update with the same data, second update_predict, update_predict_single, ...), "
-        "also starting 1-2 points inside the seen data; S3 update_predict_single with 1/3 new points, overlap 0/2, then update or another single; "
-        "S4 seeded random call sequences of 3-6 calls; horizons " + str(FHS[:3] if tier == "quick" else FHS) + "; RangeIndex at offsets 0/3 "
-        "(thorough: also integer Index and monthly PeriodIndex). Not covered: exogenous X, in-sample/absolute horizons, prediction intervals, "
-        "TimeSeriesForest-based and sklearn-regressor reductions, ARIMA/ETS/BATS/Prophet wrappers, gapped windows (window < step), "
-        "re-estimation while later data are already remembered (outcome not pinned down by the property).")
     rng = random.Random(1000 + seed)
+    R = Recorder("")
+    budget = 1500.0 if tier == "quick" else 17000.0
+    ran = total = rnd = 0
     with warnings.catch_warnings():
         warnings.simplefilter("ignore")
         for spec in specs:
-            enumerate_spec(R, spec, tier, rng)
+            a, b, c = run_spec(R, spec, tier, rng, budget)
+            ran, total, rnd = ran + a, total + b, rnd + c
+    R.bound = (
+        f"{len(specs)} forecaster configurations (8 NaiveForecaster variants incl. window_length=None and seasonal, 3 PolynomialTrend, "
+        "2 ExponentialSmoothing, Theta(sp=1), 3 Ensemble aggregations, Multiplex x2, Stacking with a fixed-weight final regressor, "
+        "6 TransformedTarget pipelines with Detrender/Deseasonalizer, recursive reduction over a stub regressor); fit on 7-12 points, then "
+        "S1: every cut of the next 4 (thorough 5) points into <=3 consecutive batches x every update_params pattern x overlap 0/1/2 points "
+        "with revised values; S2: update_predict with 10 sliding/expanding splitter shapes (window<=4, step<=3, both start modes) and the "
+        "default cv, update_params on/off, followed by one of 7 continuations (update with the same data, second update_predict, "
+        "update_predict_single, ...), also starting 1-2 points inside the seen data; S3: update_predict_single with 1/3 new points, overlap "
+        "0/2, then update or another single; horizons " + str(FHS[:3] if tier == "quick" else FHS) + "; RangeIndex at offsets 0/3"
+        + ("" if tier == "quick" else ", integer Index, monthly PeriodIndex") +
+        f". The enumerated space has {total} call sequences; a seeded sample of {ran} of them was run (sized per configuration by its cost), "
+        f"plus {rnd} seeded random call sequences of 3-6 calls (S4). Not covered: exogenous X, in-sample/absolute horizons, prediction "
+        "intervals, TimeSeriesForest-based and sklearn-regressor reductions, ARIMA/ETS/BATS/Prophet wrappers, gapped windows (window < step), "
+        "gapped horizons with a Deseasonalizer, empty batches for pipelines, re-estimation while later data are already remembered "
+        "(outcome not pinned down by the property).")
     return R.result()
 
 
@@ -1154,5 +1225,6 @@ def replay(rec):
                 scen_ups(R, s, im, ff, l0, nn, k, 0, up, "update", "replay ")
                 for cv in (("sliding", 3, 2, True), ("sliding", 2, 1, s.empty_ok is False), ("expanding", 2, 1, True)):
                     scen_upp(R, s, im, ff, l0, nn, max(ff) + k + 1, cv, up, "update-same", tag="replay ")
-    f = R.failures
+    f = [x for x in R.failures if not x["key"].startswith("KF:")]
+    inp["known_findings_also_seen"] = [x["key"] for x in R.failures if x["key"].startswith("KF:")]
     return {"reproduced": bool(f), "detail": f[:3], "input": inp}
